@@ -278,6 +278,9 @@ PROPS = {
     },
     "C11": {
         "cases": {"quick": 3200, "thorough": 48000},
+        # a quarter of the cases again in a build with the dull-color feature (real processes
+        # write to pipes there: no escape sequences may appear)
+        "extra_variants": ["all"],
         "rule": "Per case one random definition compiled into the harness executable; the harness "
                 "re-executes itself with argv[0] chosen freely (plain, path, non-ASCII, non-UTF-8 "
                 "file name) and the vector (sentences, hostile values, byte noise incl. invalid "
